@@ -88,6 +88,8 @@ def run_sequence(sc):
     is_list = kind == "redis-list"
     fake_redis.reset()
     srv = fake_redis.server_for("redis://c20:6379") if is_redis else None
+    if srv and sc.get("auto_deliver"):
+        srv.auto_deliver = True          # a listener thread that keeps up: every invalidation is processed before the command that caused it returns
     path = os.path.join(env.workdir(), "c20_store_%d.json" % os.getpid())
     if os.path.exists(path):
         os.remove(path)
@@ -135,6 +137,25 @@ def run_sequence(sc):
                         expiry.pop(k, None)
                     remember(k)
                     file_model = copy.deepcopy(model)
+                elif o == "rmw":
+                    # read - modify - write back the very object the store handed out
+                    if k in model and not is_list:
+                        v = s[k]
+                        if is_redis:
+                            v = plain(v)
+                        v[op["field"]] = copy.deepcopy(op["value"])
+                        s[k] = v
+                        model[k][op["field"]] = norm(op["value"])
+                        expiry.pop(k, None)
+                        remember(k)
+                        file_model = copy.deepcopy(model)
+                elif o == "reset_equal":
+                    # the key is set again to a value equal to the one it holds (e.g. after nested updates that the file store only keeps in memory)
+                    if k in model:
+                        s[k] = copy.deepcopy(model[k])
+                        expiry.pop(k, None)
+                        remember(k)
+                        file_model = copy.deepcopy(model)
                 elif o == "nested":
                     if k in model and not is_list:
                         s[k][op["field"]] = copy.deepcopy(op["value"])
@@ -328,6 +349,9 @@ def strategies():
             o += [st.fixed_dictionaries({"op": st.just("append"), "key": key, "value": st.sampled_from(VALUES), "client": cl})] * 2
         else:
             o += [st.fixed_dictionaries({"op": st.just("nested"), "key": key, "field": st.sampled_from(FIELDS), "value": st.sampled_from(VALUES), "client": cl})] * 2
+            o += [st.fixed_dictionaries({"op": st.just("rmw"), "key": key, "field": st.sampled_from(FIELDS), "value": st.sampled_from(VALUES), "client": cl})]
+        if not is_list or True:
+            o += [st.fixed_dictionaries({"op": st.just("reset_equal"), "key": key, "client": cl})]
         if is_redis:
             o += [st.fixed_dictionaries({"op": st.just("deliver"), "n": st.sampled_from([None, None, 1, 2])})] * 2
             o += [st.fixed_dictionaries({"op": st.just("ttl"), "key": key, "seconds": st.sampled_from([5, 60, 86400]), "client": cl}),
@@ -336,9 +360,10 @@ def strategies():
             o += [st.fixed_dictionaries({"op": st.just("corrupt"), "text": st.sampled_from(["", "{bad", "[1, 2", "\x00\x01", "nul"])})]
         return st.lists(st.one_of(*o), min_size=3, max_size=30)
 
-    def scenario(kind, nclients, flush=False):
-        return ops_for(kind, nclients).map(lambda ops: {"kind": kind, "clients": nclients, "ops": ops})
-    return st.one_of(scenario("json", 1), scenario("memory", 1), scenario("redis-dict", 1), scenario("redis-dict", 2), scenario("redis-dict", 2), scenario("redis-list", 1), scenario("redis-list", 2))
+    def scenario(kind, nclients, auto=False):
+        return ops_for(kind, nclients).map(lambda ops: dict({"kind": kind, "clients": nclients, "ops": ops}, **({"auto_deliver": True} if auto else {})))
+    return st.one_of(scenario("json", 1), scenario("json", 1), scenario("memory", 1), scenario("redis-dict", 1), scenario("redis-dict", 2), scenario("redis-dict", 2), scenario("redis-list", 1), scenario("redis-list", 2),
+                     scenario("redis-dict", 2, auto=True), scenario("redis-list", 2, auto=True))
 
 
 def flush_scenarios():
@@ -356,7 +381,7 @@ def nontrivial(sc):
     ops = sc["ops"]
     wrote = {}
     for i, o in enumerate(ops):
-        if o["op"] in ("set", "nested", "append"):
+        if o["op"] in ("set", "nested", "append", "rmw", "reset_equal"):
             wrote[o["key"]] = (i, o.get("client", 0))
         if o["op"] in ("get", "getdefault", "cached", "contains") and o["key"] in wrote:
             wi, wc = wrote[o["key"]]
@@ -366,7 +391,7 @@ def nontrivial(sc):
 
 
 def classes(sc):
-    c = {"kind-" + sc["kind"], "clients-%d" % sc.get("clients", 1)}
+    c = {"kind-" + sc["kind"], "clients-%d" % sc.get("clients", 1), "invalidations-" + ("processed-at-once" if sc.get("auto_deliver") else "delivered-by-schedule")}
     for o in sc["ops"]:
         c.add("op-" + o["op"])
     return sorted(c)
@@ -431,5 +456,5 @@ def main(tier, seed, replay=None):
     if tier == "thorough":
         run_shards(camp, __name__, "shard", 16, examples=3000)
     else:
-        run_shards(camp, __name__, "shard", 8, examples=150)
+        run_shards(camp, __name__, "shard", 8, examples=400)
     return camp.finish()
